@@ -119,6 +119,10 @@ Additions for the prediction code (common.copy_array_with_control_treatments_set
                       operators are PRIMS with hole types, overloaded by shape under cfg["overload"] (`__a + __b` at
                       vec/vec, mat/mat, float/vec ...): an operand combination no prim is declared for is refused.  Float
                       literals are prims too (`0.01`), any other float constant is refused.
+  `T1 | T2`           in cfg["vars"]: a local the function re-uses at several types (`result` = one sample's vector inside a loop,
+                      the stacked matrix after it).  Only a plain assignment `x = e` may bind such a variable, at the alternative
+                      that IS the type of e (no coercion); every other binder (loop target, state call, `with`, tuple target)
+                      compares the declared type as a whole and so refuses it.  Reads use the type of the binding in scope.
   cfg["assign_effects"]  a template starting with `!` denotes a `result state` (the store may raise, e.g. numpy's
                       `a[mask, ...] = 0.0` with a mask of the wrong length): `dor state <- template;`
 """
@@ -132,6 +136,8 @@ class Unsupported(Exception):
 # ---------------------------------------------------------------- types
 def parse_type(s):
     s = s.strip()
+    if " | " in s and len(split_top(s, "|")) > 1:      # `T1 | T2`: a variable the function re-uses at several types
+        return ("alt", tuple(parse_type(x) for x in split_top(s, "|")))
     if s.startswith("opt "):
         return ("opt", parse_type(s[4:]))
     if s.startswith("list "):
@@ -798,6 +804,10 @@ class Tr:
             if isinstance(tgt, ast.Name):
                 ty = self.var_type(tgt.id)
                 v, vt = self.expr(st.value, env, hoist)
+                if ty[0] == "alt":     # declared `T1 | T2`: this assignment binds the variable at the alternative the value has
+                    if vt not in ty[1]:
+                        raise Unsupported("assignment of a %s to %s, declared %s" % (vt, tgt.id, ty))
+                    ty = vt
                 v = self.need(v, vt, ty, hoist)
                 env2 = dict(env)
                 env2[tgt.id] = ty
